@@ -106,6 +106,53 @@ def _run_replay(prop, ob, replay_spec, reuse=None):
     return confirmed, path, out
 
 
+def _native_one(job):
+    prop, func, inputs, idx = job
+    os.makedirs(REPLAY_DIR, exist_ok=True)
+    path = os.path.join(REPLAY_DIR, '%s_native_%s_%d.json' % (prop, func, idx))
+    doc = {'property': prop, 'obligation': 'native/%s' % func, 'target': 'bounded native sweep', 'replay': {'func': func, 'inputs': inputs},
+           'command': '%s %s/replay/run.py %s' % (VENV_PY, VERIF, path)}
+    json.dump(doc, open(path, 'w'), indent=1, default=str)
+    t0 = time.time()
+    try:
+        p = subprocess.run([VENV_PY, os.path.join(VERIF, 'replay', 'run.py'), path], capture_output=True, text=True, timeout=3000,
+                           env=dict(os.environ, PYTHONPATH=os.environ.get('PYVC_REPO', '/repo')))
+        out = (p.stdout + p.stderr)[-3000:]
+        rc = p.returncode
+    except Exception as e:          # pragma: no cover
+        out, rc = 'native sweep failed to run: %s' % e, 2
+    doc['replay_output'], doc['replay_confirmed'] = out, rc == 1
+    json.dump(doc, open(path, 'w'), indent=1, default=str)
+    return {'func': func, 'inputs': inputs, 'violates': rc == 1, 'error': None if rc in (0, 1) else out[-300:], 'path': path,
+            'seconds': round(time.time() - t0, 1), 'summary': out[:300]}
+
+
+def native_sweep(prop, known):
+    """thorough tier: the native replays of the property on their built-in finite input sets (replay/<prop>.py: THOROUGH =
+    [(function, inputs, obligation name of the open finding it reproduces or None)]).  Bounded, never counted as proved."""
+    try:
+        src = open(os.path.join(VERIF, 'replay', prop.lower() + '.py')).read()
+    except OSError:
+        return []
+    import ast as _ast
+    todo = []
+    for st in _ast.parse(src).body:
+        if isinstance(st, _ast.Assign) and any(isinstance(t, _ast.Name) and t.id == 'THOROUGH' for t in st.targets):
+            todo = _ast.literal_eval(st.value)
+    jobs = [(prop, f, i, k) for k, (f, i, _) in enumerate(todo)]
+    if not jobs:
+        return []
+    ctx = mp.get_context('fork')
+    with ctx.Pool(min(8, len(jobs))) as pool:
+        res = pool.map(_native_one, jobs, chunksize=1)
+    for r, (f, i, kn) in zip(res, todo):
+        r['obligation'] = kn or ('native/' + f)
+        r['known'] = None
+        if r['violates'] and kn:
+            r['known'] = next((k for k in known if k.get('status') == 'open' and k.get('property') == prop and k.get('obligation') == kn), None)
+    return res
+
+
 def main(argv=None):
     import argparse
     ap = argparse.ArgumentParser()
@@ -125,6 +172,7 @@ def main(argv=None):
     seed = int(os.environ.get('VERIF_SEED', '0') or 0)
     tier = a.tier if a.tier in ('quick', 'thorough') else 'quick'
     timeout_ms = 10000 if tier == 'quick' else 120000
+    os.environ['PYVC_TIER'] = tier
     sys.path.insert(0, VERIF)
     try:
         mod = importlib.import_module('contracts.' + prop.lower())
@@ -193,6 +241,16 @@ def main(argv=None):
         confirmed, path, out = run_replay(prop, ob, spec)
         violations.append((ob, confirmed, path))
 
+    native = []
+    if tier == 'thorough':
+        native = native_sweep(prop, known)
+        for n in native:
+            if n['violates'] and n.get('known') is None:
+                violations.append(({'name': n['obligation'], 'target': 'native/' + n['func']}, True, n['path']))
+            elif n['violates']:
+                print('KNOWN-FINDING: property=%s %s [native/%s] %s' % (prop, n['obligation'], n['func'], n['known'].get('what', '')))
+            elif n.get('error'):
+                errors.append(('native/' + n['func'], n['error']))
     for k, ob in known_hits:
         print('KNOWN-FINDING: property=%s %s [%s] %s' % (prop, ob['name'], ob['target'], k.get('what', '')))
     for ob, confirmed, path in violations:
@@ -263,6 +321,13 @@ def main(argv=None):
         'samples': samples[:12],
         'extraction_drops': meta.get('extraction_drops', DEFAULT_DROPS),
     }
+    if tier == 'thorough':
+        cov['cross_checked_by_cvc5'] = {'agree': sum(1 for r in results for ob in r['obligations'] if (ob.get('cross_check') or {}).get('result') == 'unsat'),
+                                        'cvc5_unknown': sum(1 for r in results for ob in r['obligations'] if (ob.get('cross_check') or {}).get('result') == 'unknown'),
+                                        'disagree': sum(1 for r in results for ob in r['obligations'] if (ob.get('cross_check') or {}).get('result') == 'sat')}
+        cov['bounded_native_sweeps'] = [{k: n.get(k) for k in ('func', 'inputs', 'violates', 'seconds', 'summary')} for n in native]
+        cov['bounded_native_note'] = ('bounded: each sweep runs the real code under /venv on the finite set of inputs written in replay/%s.py '
+                                      '(THOROUGH); never counted as proved' % prop.lower())
     ev = {'property_id': prop, 'tier': tier, 'seed': seed, 'level': level, 'coverage': cov,
           'assumptions': trusted, 'wall_s': round(time.time() - t0, 2), 'violations': len(violations)}
     os.makedirs(EVID_DIR, exist_ok=True)
